@@ -593,7 +593,7 @@ fc_statements = [
         ],
         arg_c_call=["{F_pointer}"],
         post_call=[
-            "call c_f_pointer({F_pointer}, {f_var})",
+            "call c_f_pointer(\t{F_pointer},\t {f_var})",
         ],
     ),
     dict(
@@ -606,7 +606,7 @@ fc_statements = [
         ],
         f_module=dict(iso_c_binding=["c_f_pointer"]),
         post_call=[
-            "call c_f_pointer({c_var_context}%base_addr, {f_var}{f_array_shape})",
+            "call c_f_pointer(\t{c_var_context}%base_addr,\t {f_var}{f_array_shape})",
         ],
     ),
     dict(
@@ -771,7 +771,7 @@ fc_statements = [
         post_call=[
             # XXX - allocate scalar
             "allocate({f_var}({c_var_dimension}))",
-            "call {hnamefunc0}({c_var_context}, {f_var}, size({f_var}, kind=C_SIZE_T))",
+            "call {hnamefunc0}(\t{c_var_context},\t {f_var},\t size({f_var}, kind=C_SIZE_T))",
         ],
     ),
 
@@ -787,7 +787,7 @@ fc_statements = [
             "{F_pointer} = {F_C_call}({F_arg_c_call})",
         ],
         post_call=[
-            "call c_f_pointer({F_pointer}, {F_result}{f_array_shape})",
+            "call c_f_pointer(\t{F_pointer},\t {F_result}{f_array_shape})",
         ],
     ),
     dict(
@@ -800,7 +800,7 @@ fc_statements = [
             "{F_pointer} = {F_C_call}({F_arg_c_call})",
         ],
         post_call=[
-            "call c_f_pointer({F_pointer}, {F_result}{f_array_shape})",
+            "call c_f_pointer(\t{F_pointer},\t {F_result}{f_array_shape})",
         ],
     ),
 #    dict(
@@ -824,7 +824,7 @@ fc_statements = [
             "{F_pointer} = {F_C_call}({F_arg_c_call})",
         ],
         post_call=[
-            "call c_f_pointer({F_pointer}, {F_result}{f_array_shape})",
+            "call c_f_pointer(\t{F_pointer},\t {F_result}{f_array_shape})",
             "{c_var_capsule}%mem = {c_var_context}%cxx",
         ],
     ),
@@ -1023,7 +1023,7 @@ fc_statements = [
         ],
         post_call=[
             "allocate(character(len={c_var_context}%elem_len):: {f_var})",
-            "call {hnamefunc0}({c_var_context}, {f_var}, {c_var_context}%elem_len)",
+            "call {hnamefunc0}(\t{c_var_context},\t {f_var},\t {c_var_context}%elem_len)",
         ],
     ),
 
@@ -1241,7 +1241,7 @@ fc_statements = [
         ],
         post_call=[
             "allocate(character(len={c_var_context}%elem_len):: {f_var})",
-            "call {hnamefunc0}({c_var_context}, {f_var}, {c_var_context}%elem_len)",
+            "call {hnamefunc0}(\t{c_var_context},\t {f_var},\t {c_var_context}%elem_len)",
         ],
     ),
     
@@ -1486,7 +1486,7 @@ fc_statements = [
         f_helper="copy_array_{cxx_T}",
         f_module=dict(iso_c_binding=["C_SIZE_T"]),
         post_call=[
-            "allocate({f_var}({c_var_context}%size))",
+            "allocate(\t{f_var}(\t{c_var_context}%size))",
             "call {hnamefunc0}(\t{c_var_context},\t {f_var},\t size({f_var},kind=C_SIZE_T))",
         ],
     ),
@@ -1496,8 +1496,8 @@ fc_statements = [
         f_helper="copy_array_{cxx_T}",
         f_module=dict(iso_c_binding=["C_SIZE_T"]),
         post_call=[
-            "if (allocated({f_var})) deallocate({f_var})",
-            "allocate({f_var}({c_var_context}%size))",
+            "if (allocated({f_var}))\t deallocate(\t{f_var})",
+            "allocate(\t{f_var}(\t{c_var_context}%size))",
             "call {hnamefunc0}(\t{c_var_context},\t {f_var},\t size({f_var},kind=C_SIZE_T))",
         ],
     ),
@@ -1509,7 +1509,7 @@ fc_statements = [
         f_helper="copy_array_{cxx_T}",
         f_module=dict(iso_c_binding=["C_SIZE_T"]),
         post_call=[
-            "allocate({f_var}({c_var_context}%size))",
+            "allocate(\t{f_var}(\t{c_var_context}%size))",
             "call {hnamefunc0}(\t{c_var_context},\t {f_var},\t size({f_var},kind=C_SIZE_T))",
         ],
     ),
